@@ -52,6 +52,15 @@ impl<T: RealNumber> KMeans<T> {
 //@enter
         proof { T::ops_total(); T::from_self_is_identity(); }
         let ghost rows = mat_rows(data);
+        let ghost mut done = false;     // set as soon as an iteration of the Lloyd loop (loop 6) has started
+        // the sizes of ANY assignment statistics sum to the number of rows (used after the Lloyd loop, for the returned value)
+        proof {
+            assert forall|rws: Seq<Seq<T>>, yy: Seq<usize>, ss: Seq<Seq<T>>, cnt: Seq<usize>, k: int, dd: int|
+                #[trigger] cluster_stats(rws, yy, ss, cnt, k, dd) && k >= 0 implies sum_sizes(cnt, k) == rws.len() by {
+                lemma_sum_counts(yy, rws.len() as int, k);
+                lemma_sum_sizes(cnt, yy, rws.len() as int, k);
+            }
+        }
 //@loop 1
             invariant
                 n == data.nrows_spec(),
@@ -85,8 +94,6 @@ impl<T: RealNumber> KMeans<T> {
                     size@.len() == parameters.k, i < parameters.k,
                     centroids@.len() == parameters.k,
                     forall|c: int| 0 <= c < parameters.k ==> (#[trigger] centroids@[c])@.len() == d,
-//@after let mut sums = vec![
-        let ghost mut done = false;
 //@loop 6
             invariant
                 T::obeys_div_spec(), forall|a: T, b: T| #[trigger] a.div_req(b), T::obeys_partial_cmp_spec(),
@@ -106,11 +113,10 @@ impl<T: RealNumber> KMeans<T> {
                 done ==> centroids_are_means(rows, y@, deep(sums@), size@, deep(centroids@), parameters.k as int, d as int), //# inv-centroids-belong-to-the-last-clustering
             ensures
                 done, //# at-least-one-clustering-call-was-made
-//@after bbd.clustering(
-            proof {
-                done = true;
-                assert(cluster_stats(rows, y@, deep(sums@), size@, parameters.k as int, d as int));
-            }
+                // on BOTH exits (iteration limit, distortion test): what is returned right after the loop
+                centroids_are_means(rows, y@, deep(sums@), size@, deep(centroids@), parameters.k as int, d as int), //# returned-centroids-belong-to-the-returned-assignment
+//@loopbody 6
+            proof { done = true; }
 //@loop 7
                 invariant
                     T::obeys_div_spec(), forall|a: T, b: T| #[trigger] a.div_req(b),
@@ -135,44 +141,6 @@ impl<T: RealNumber> KMeans<T> {
                                 ==> #[trigger] centroids@[c]@[j] == sums@[c]@[j].div_spec(T::from_spec::<usize>(size@[c])),
                             forall|b: int| 0 <= b < j
                                 ==> #[trigger] centroids@[i as int]@[b] == sums@[i as int]@[b].div_spec(T::from_spec::<usize>(size@[i as int])), //# inv-centroid-entry-is-sum-over-size
-//@before Ok(KMeans {
-        proof {
-            let k = parameters.k as int;
-            let sw = deep(sums@);       // the witness: the sums delivered by the last clustering call
-            let cw = deep(centroids@);
-            assert(done);
-            assert(centroids_are_means(rows, y@, sw, size@, cw, k, d as int)); //# returned-centroids-belong-to-the-returned-assignment
-            assert(cluster_stats(rows, y@, sw, size@, k, d as int));
-            assert(rows.len() == n);
-            // shape
-            assert(centroids@.len() == k && size@.len() == k && k >= 2);
-            assert forall|c: int| 0 <= c < k implies (#[trigger] centroids@[c])@.len() == centroids@[0]@.len() by {
-                assert(centroids@[c]@.len() == d);
-                assert(centroids@[0]@.len() == d);
-            }
-            assert(centroids@[0]@.len() == d);
-            // assignment and sizes
-            assert(y@.len() == n);
-            assert forall|i: int| 0 <= i < n implies #[trigger] y@[i] < k by {}
-            assert forall|c: int| 0 <= c < k implies #[trigger] size@[c] == count_eq(y@, c, n as int) by {}
-            lemma_sum_counts(y@, n as int, k);
-            lemma_sum_sizes(size@, y@, n as int, k);
-            assert(sum_sizes(size@, k) == n);
-            // the existential of the postcondition, in its own terms, with the explicit witness sw
-            assert(n == data.nrows_spec() && d == data.ncols_spec() && rows == mat_rows(data));
-            assert(centroids_are_means(mat_rows(data), y@, sw, size@, deep(centroids@), parameters.k as int, data.ncols_spec()));
-            // ... and once more over the fields of the value about to be returned (ghost copy of the struct expression below)
-            let res = KMeans::<T> { k: parameters.k, _y: y, size: size, _distortion: distortion, centroids: centroids };
-            assert(res._y@ == y@ && res.size@ == size@ && res.centroids@ == centroids@);
-            assert(res.wf() && res.k == parameters.k && res.dim() == data.ncols_spec());
-            assert(res._y@.len() == data.nrows_spec());
-            assert forall|i: int| 0 <= i < data.nrows_spec() implies #[trigger] res._y@[i] < parameters.k by {}
-            assert forall|c: int| 0 <= c < parameters.k implies #[trigger] res.size@[c] == count_eq(res._y@, c, data.nrows_spec()) by {}
-            assert(sum_sizes(res.size@, parameters.k as int) == data.nrows_spec());
-            assert(centroids_are_means(mat_rows(data), res._y@, sw, res.size@, deep(res.centroids@), parameters.k as int, data.ncols_spec()));
-            assert(exists|s: Seq<Seq<T>>| #[trigger] centroids_are_means(mat_rows(data), res._y@, s, res.size@, deep(res.centroids@),
-                parameters.k as int, data.ncols_spec()));
-        }
 //@end
 }
 } // verus!
